@@ -312,8 +312,17 @@ pub fn copy_dir(from: &Path, to: &Path) -> std::io::Result<()> {
 }
 
 pub fn wipe(p: &Paths) -> std::io::Result<()> {
-    if p.root.exists() {
-        fs::remove_dir_all(&p.root)?;
+    // empty the root rather than removing it: it may be a mount point (full-disk histories)
+    if p.root.is_dir() {
+        for e in fs::read_dir(&p.root)? {
+            let e = e?;
+            if e.file_type()?.is_dir() {
+                fs::remove_dir_all(e.path())?;
+            } else {
+                fs::remove_file(e.path())?;
+            }
+        }
+        return Ok(());
     }
     fs::create_dir_all(&p.root)
 }
